@@ -160,7 +160,7 @@ func c08FuncAt(root *an.Func, n ast.Node) *an.Func {
 func c08SwitchSubject(f *an.Func, e ast.Expr) string {
 	id, ok := ast.Unparen(e).(*ast.Ident)
 	if !ok {
-		return f.Canon(e)
+		return c08Canon(f, e)
 	}
 	info := f.Info()
 	obj := info.Uses[id]
@@ -181,13 +181,13 @@ func c08SwitchSubject(f *an.Func, e ast.Expr) string {
 		// the symbol is declared implicitly once per clause
 		for _, cc := range ts.Body.List {
 			if info.Implicits[cc] == obj && obj != nil {
-				out = f.Canon(ta.X)
+				out = c08Canon(f, ta.X)
 			}
 		}
 		return true
 	})
 	if out == "" {
-		return f.Canon(e)
+		return c08Canon(f, e)
 	}
 	return out
 }
@@ -325,22 +325,33 @@ func c08AfterFailureOf(o *an.Obl, f *an.Func, calls []an.Site, target an.Site, w
 // its definition behind "&" (Canon does not look through a variable whose
 // address is taken).
 func c08RefCanon(f *an.Func, e ast.Expr) string {
+	return c08RefCanonD(f, e, 0)
+}
+
+func c08RefCanonD(f *an.Func, e ast.Expr, depth int) string {
 	if e == nil {
 		return "<absent>"
 	}
+	// a local holding the reference value (`p := &x` … `sourceRef: p`, what
+	// the loader leaves of a helper that builds the packet): its definition
+	if pid, isID := ast.Unparen(e).(*ast.Ident); isID && depth < 4 {
+		if d := f.UniqueDef(pid); d != nil {
+			return c08RefCanonD(f, d, depth+1)
+		}
+	}
 	u, ok := ast.Unparen(e).(*ast.UnaryExpr)
 	if !ok || u.Op != token.AND {
-		return f.Canon(e)
+		return c08Canon(f, e)
 	}
 	id, ok := ast.Unparen(u.X).(*ast.Ident)
 	if !ok {
-		return f.Canon(e)
+		return c08Canon(f, e)
 	}
 	root := f.Root()
 	info := root.Info()
 	obj := info.Uses[id]
 	if obj == nil || len(c08WritesOf(f, obj, true)) > 0 {
-		return f.Canon(e)
+		return c08Canon(f, e)
 	}
 	var def ast.Expr
 	n := 0
@@ -366,9 +377,9 @@ func c08RefCanon(f *an.Func, e ast.Expr) string {
 		return true
 	})
 	if n != 1 || def == nil {
-		return f.Canon(e)
+		return c08Canon(f, e)
 	}
-	return "&" + f.Canon(def)
+	return "&" + c08Canon(f, def)
 }
 
 // c08OneDirect: sites (collected with closures included) is exactly one call
